@@ -1468,7 +1468,7 @@ impl Model {
                 None => same(Expect::Any),
             },
             Op::Macro { name, a, b, mode, d } => self.macro_eval(name, a, b, *mode, d),
-            Op::Expand { .. } | Op::UserDir { .. } | Op::Getrids { .. } => same(Expect::Any),
+            Op::Expand { .. } | Op::UserDir { .. } | Op::Getrids { .. } | Op::PathFn { .. } => same(Expect::Any),
         }
     }
 
